@@ -485,8 +485,12 @@ func nativeReplay(repo string, overlays map[string]string, pkg, entry, file, scr
 	if err != nil {
 		return false, err.Error()
 	}
-	cmd := exec.Command("go", "test", "-vet=off", "-count=1", "-run", "^TestVerifReplay$", "-v", "-timeout", "300s", "-overlay", ov, pkg)
-	cmd.Dir = repo
+	bin, berr := buildTestBinary(repo, ov, pkg, scratch)
+	if berr != "" {
+		return false, berr
+	}
+	cmd := exec.Command(bin, "-test.run", "^TestVerifReplay$", "-test.v", "-test.timeout", "300s")
+	cmd.Dir = scratch
 	cmd.Env = append(goTestEnv(), "VERIF_ENTRY="+entry, "VERIF_REPLAY_FILE="+file)
 	out, err := cmd.CombinedOutput()
 	s := string(out)
@@ -494,6 +498,26 @@ func nativeReplay(repo string, overlays map[string]string, pkg, entry, file, scr
 		return true, s
 	}
 	return false, s
+}
+
+var testBins = map[string]string{}
+
+// buildTestBinary compiles the package's test binary (real code + overlaid harness) once per run.
+func buildTestBinary(repo, ov, pkg, scratch string) (string, string) {
+	if b, ok := testBins[pkg]; ok {
+		return b, ""
+	}
+	sum := sha1.Sum([]byte(pkg))
+	bin := filepath.Join(scratch, fmt.Sprintf("t%x.test", sum[:4]))
+	cmd := exec.Command("go", "test", "-c", "-vet=off", "-overlay", ov, "-o", bin, pkg)
+	cmd.Dir = repo
+	cmd.Env = goTestEnv()
+	out, err := cmd.CombinedOutput()
+	if err != nil {
+		return "", string(out)
+	}
+	testBins[pkg] = bin
+	return bin, ""
 }
 
 func doReplayFile(repo string, overlays map[string]string, file string) int {
@@ -581,8 +605,14 @@ func batchValidate(repo string, overlays map[string]string, prog *gosx.Program, 
 		os.Remove(of)
 		b, _ := json.Marshal(cs)
 		os.WriteFile(bf, b, 0o644)
-		cmd := exec.Command("go", "test", "-vet=off", "-count=1", "-run", "^TestVerifBatch$", "-timeout", "600s", "-overlay", ov, pkg)
-		cmd.Dir = repo
+		bin, berr := buildTestBinary(repo, ov, pkg, scratch)
+		if berr != "" {
+			notes = append(notes, fmt.Sprintf("native test binary for %s did not build: %s", pkg, lastLines(berr, 8)))
+			bad++
+			continue
+		}
+		cmd := exec.Command(bin, "-test.run", "^TestVerifBatch$", "-test.timeout", "600s")
+		cmd.Dir = scratch
 		cmd.Env = append(goTestEnv(), "VERIF_BATCH_FILE="+bf, "VERIF_BATCH_OUT="+of)
 		out, err := cmd.CombinedOutput()
 		if err != nil {
